@@ -33,8 +33,8 @@ def _corrupt(evs):
 
 def plans(tier):
     if tier == "quick":
-        return [("d2-unknown-ccs", 4, 1), ("d2-unknown-follow", 1, 2), ("d3-unknown-ccs-follow", 1, 6), ("d3-unknown-ccs-follow2", 1, 12), ("d3-unknown-pair", 2, 1)]
-    return [("d2-unknown-ccs", 32, 1), ("d2-unknown-follow", 3, 1), ("d3-unknown-ccs-follow", 2, 1), ("d3-unknown-ccs-follow2", 2, 2), ("d3-unknown-pair", 16, 1)]
+        return [("d2-unknown-ccs", 4, 1), ("d2-unknown-follow", 1, 2), ("d3-unknown-ccs-follow", 1, 6), ("d3-unknown-ccs-follow2", 1, 12), ("d3-unknown-pair", 2, 1), ("d2-unknown-rechunk-nan", 4, 1)]
+    return [("d2-unknown-ccs", 32, 1), ("d2-unknown-follow", 3, 1), ("d3-unknown-ccs-follow", 2, 1), ("d3-unknown-ccs-follow2", 2, 2), ("d3-unknown-pair", 16, 1), ("d2-unknown-rechunk-nan", 32, 1)]
 
 
 def accept(v):
@@ -54,7 +54,7 @@ def run(chk):
         chk.cov["exhaustive"] = True
         chk.cov["rule"] = ("every behaviour of ArrayProgram.tla that starts with MaskSelect (thresholds selecting none / some / all elements) or "
                            "Unknown (flatnonzero, argwhere, unique) over the preset sources x chunk grids, followed by ComputeChunkSizes and / or "
-                           "follow-on operations; one 'blocks' and one 'unknown' observation per collection from the producer on")
+                           "follow-on operations (incl. rechunks onto unknown targets of another block count); one 'blocks' and one 'unknown' observation per collection from the producer on")
         chk.assumptions += ["an operation on unknown (or resolved) sizes that raises is accepted (ok-refused)",
                             "compress / nonzero tuples are not modelled"]
     finally:
